@@ -31,6 +31,7 @@ from happysimulator.components.datastore.sharded_store import HashSharding
 from happysimulator.core.entity import Entity
 from happysimulator.core.event import Event
 from happysimulator.core.sim_future import SimFuture
+from happysimulator.core.temporal import Duration
 
 if TYPE_CHECKING:
     from collections.abc import Generator
@@ -193,10 +194,19 @@ class EventLog(Entity):
             retention_check_interval: Seconds between retention sweeps.
 
         Raises:
-            ValueError: If num_partitions < 1.
+            ValueError: If num_partitions < 1 or retention_check_interval is
+                below one nanosecond.
         """
         if num_partitions < 1:
             raise ValueError(f"num_partitions must be >= 1, got {num_partitions}")
+        # Simulation time is integer nanoseconds: an interval below one nanosecond
+        # (or zero / negative) would make the retention daemon re-schedule itself
+        # at the current instant forever (the clock never advances).
+        if Duration.from_seconds(float(retention_check_interval)).nanoseconds <= 0:
+            raise ValueError(
+                "retention_check_interval must be at least one nanosecond, "
+                f"got {retention_check_interval}"
+            )
 
         super().__init__(name)
         self._num_partitions = num_partitions
